@@ -1458,6 +1458,11 @@ class Interp:
         self.frame.yields.append(v)
         return NONE
 
+    def ex_YieldFrom(self, node, env):
+        it = self.eval(node.value, env)
+        self.frame.yields.append(self.iter_elem(it, node))
+        return NONE
+
     def ex_NamedExpr(self, node, env):
         raise Unsupported("walrus")
 
